@@ -288,7 +288,7 @@ def gls(members, names, constraints, fixed, shared=()):
     for a, i in enumerate(free):
         for b_, j in enumerate(free):
             Cfull[i, j] = C[a, b_]
-    return {"p": p, "cov": Cfull, "chi2": chi2, "logdet": logdet, "free": free, "fix": fix, "condH": condH, "okH": okH, "S": S}
+    return {"p": p, "cov": Cfull, "chi2": chi2, "logdet": logdet, "free": free, "fix": fix, "condH": condH, "okH": okH, "S": S, "Af": Af, "Si": Si, "y2": y2}
 
 
 # ------------------------------------------------------------------ execution
@@ -460,10 +460,56 @@ def run_case(ctx, case):
     # the normal matrix (observed 2.4e-2 at cond 6e6); numdifftools (scipy backend) does not (observed 2e-11)
     ctol = 2e-3 if case["minimizer"] == "scipy" else max(5e-3, 2e-7 * g["condH"])
     ctx.note("cov_tolerance_le_1e-2" if ctol <= 1e-2 else "cov_tolerance_gt_1e-2")
+    # HESSE's accuracy is not a function of the condition number alone: for a cubic with parameters ~1e-4 and cond 3.9e5 kafe2 reported
+    # 0.82 x the GLS covariance (seed-5 sweep), and plain iminuit.Minuit with the settings kafe2 uses (tol 0.01, strategy 1) on the
+    # closed-form cost of the same problem gives 1.23 x / 0.87 x / 1.16 x depending on the initial step sizes (findings/C05-iminuit-hesse).
+    # Explain-check before a covariance deviation of the iminuit backend is reported: plain Minuit2 (MIGRAD + HESSE, kafe2's tol and
+    # strategy, same start) is run on the closed-form cost (residuals, then the quadratic form: the rounding noise of any evaluation of
+    # the model) with three sets of step sizes; HESSE's error there is chaotic (0.43 x ... 1.23 x for this witness depending on step sizes
+    # and the order of the arithmetic), so the criterion is relative: if Minuit2 itself misses the closed form by at least half the
+    # tolerance AND at least a third of the deviation seen, its accuracy on this problem cannot decide the comparison: discarded and
+    # counted.  A deviation far above Minuit2's own (a wrong factor, a mixed-up block) is still reported.
+    # Values, fixed parameters, goodness of fit, cost and the asymmetric uncertainties are still compared.
+    skip_cov = False
+    if case["minimizer"] == "iminuit" and not bool(np.all(dev <= ctol)) and bool(np.all(np.abs(pv - g["p"])[free] <= ptol * sig[free])):
+        try:
+            import iminuit as _im
+            fr = list(free)
+            Cf = g["cov"][np.ix_(fr, fr)]
+            Af, Si, y2 = g["Af"], g["Si"], g["y2"]
+            off = float(fit.cost_function_value) - g["chi2"]
+
+            def closed_form(v):
+                # the same arithmetic as any evaluation of the model in double precision: residuals first, then the quadratic form
+                rr = y2 - Af @ np.asarray(v, dtype=float)
+                return off + float(rr @ Si @ rr)
+
+            st = case.get("start") if isinstance(case.get("start"), dict) else {}
+            s0 = np.array([float(st.get(n, pv[i])) for i, n in enumerate(fit.parameter_names)])[fr]
+            worst2 = 0.0
+            for steps in (np.full(len(fr), 0.1), 0.1 * np.abs(s0) + 1e-300, np.sqrt(np.diag(Cf))):
+                m2 = _im.Minuit(closed_form, s0)
+                m2.errordef = 1.0
+                m2.errors = steps
+                m2.tol = 0.01
+                m2.strategy = 1
+                m2.migrad(ncall=6000); m2.hesse()
+                d2 = np.abs(np.array(m2.covariance, dtype=float) - Cf) / norm[np.ix_(fr, fr)]
+                worst2 = max(worst2, float(d2.max()))
+            ctx._count("explain.plain-minuit-on-closed-form-cost")
+            ctx.worst["explain_plain_minuit_worst"] = max(ctx.worst.get("explain_plain_minuit_worst", 0.0), worst2)
+            if worst2 > max(0.5 * ctol, float(dev.max()) / 3.0):
+                skip_cov = True
+                ctx.discard("covariance-comparison: plain Minuit2 (kafe2's settings) misses the closed form by a comparable amount on this problem")
+        except Exception:
+            ctx._count("explain.plain-minuit-failed")
+    ctol_sd = ctol
+    if skip_cov:
+        ctol = float("inf")
     ctx.check("parameter_cov_mat", bool(np.all(dev <= ctol)), lambda: {"got": cm, "expected": g["cov"], "max_normalised_deviation": float(dev.max()), "tolerance": ctol, "cond": g["condH"]}, key=skey)
     pe = np.array(fit.parameter_errors, dtype=float)
     ctx.check("parameter_errors", bool(np.all(np.abs(pe - sig) <= ctol * sig_safe)), lambda: {"got": pe, "expected": sig, "tolerance": ctol}, key=skey)
-    ctx.close("parameter_errors.sqrt-diag", pe, np.sqrt(np.diag(cm)), tol=Tol.custom("DEF", max(1e-3, ctol), 1e-14), key=skey)
+    ctx.close("parameter_errors.sqrt-diag", pe, np.sqrt(np.diag(cm)), tol=Tol.custom("DEF", max(1e-3, ctol_sd), 1e-14), key=skey)
     cor = fit.parameter_cor_mat
     if cor is not None and len(free) >= 1:
         cor = np.array(cor, dtype=float)
